@@ -56,7 +56,7 @@ Definition ms_eqb (a b : ms_req) : bool :=
   list_eqb N.eqb (ms_delay a) (ms_delay b) && (ms_delay_secs a =? ms_delay_secs b).
 
 Definition acase := (bool * sp_req * option ms_req)%type.
-Definition adapter_bad (cs : list (nat * acase)) : list nat :=
+Definition adapter_bad (cs : list (N * acase)) : list N :=
   flat_map (fun ic => let '(i, (ini, r, obs)) := ic in
                       if opt_eqb ms_eqb (adapt_in ini r) obs then [] else [i]) cs.
 
